@@ -51,6 +51,16 @@ func feed(rb gowarc.WarcRecordBuilder, content []byte, how string) error {
 			}
 		}
 		return nil
+	case how == "w2": // a short write, then everything else in one large write (the buffer has to grow by more than it holds)
+		k := 47
+		if len(content) < k {
+			k = len(content)
+		}
+		if _, err := rb.Write(content[:k]); err != nil {
+			return err
+		}
+		_, err := rb.Write(content[k:])
+		return err
 	case how == "mix2": // ReadFrom, Write, ReadFrom, Write: every order of the two ways of appending, across the spill
 		q := len(content) / 4
 		parts := [][]byte{content[:q], content[q : 2*q], content[2*q : 3*q], content[3*q:]}
@@ -240,6 +250,23 @@ func kBuild(args []string) (string, string) {
 			}
 		}
 		kind := gowarc.VerifBlockKind(res.rec.Block())
+		// whether the block is an HTTP block is decided HERE, from the record type and the media type of the WARC Content-Type
+		// (the part before ';', white space and letter case set aside), not taken from the implementation: a response or
+		// request record whose content starts like an HTTP message and has a terminated head must be given a payload digest
+		if oracle == "ok" && o.adddig && !o.skip && !supplied("WARC-Payload-Digest") && !supplied("Content-Length") && (rt0 == 2 || rt0 == 8) && kind != "httpReq" && kind != "httpResp" {
+			ctv, _ := func() (string, int) {
+				for _, nv := range hdr {
+					if strings.EqualFold(nv[0], "Content-Type") {
+						return nv[1], 1
+					}
+				}
+				return "", 0
+			}()
+			mt := strings.ToLower(strings.TrimSpace(strings.SplitN(ctv, ";", 2)[0]))
+			if head, found := splitHead(block); mt == "application/http" && found && httpOK(rt0 == 2, head) {
+				oracle = fmt.Sprintf("VIOL c02-payload-digest a %s record with Content-Type %s and a well-formed HTTP head is not treated as an HTTP block (kind %s): no payload digest of the bytes after the head", map[int]string{2: "response", 8: "request"}[rt0], sanitize(ctv), kind)
+			}
+		}
 		if o.adddig && (kind == "httpReq" || kind == "httpResp") && !supplied("WARC-Payload-Digest") && !supplied("Content-Length") {
 			if _, n := get("WARC-Segment-Number"); n == 0 {
 				head, _ := splitHead(block)
@@ -351,6 +378,13 @@ func kRoundtrip(args []string) (string, string) {
 	}
 	line := fmt.Sprintf("berr=- bfnd=%s uerr=%s off=%d ufnd=%s eq=%s re=%s rest=%s", showList(bres.fnd), uerr, off, showList(ufnd), tf(eq), tf(re), restS)
 	oracle := "ok"
+	// "any content": the block of the built record IS the content handed to the builder (no block repair option on): what is
+	// written and read back must be what the caller wrote, not merely something self-consistent
+	if !bo.fixsyn && !bo.fixwf || rt0 == 4 && !strings.HasPrefix(strings.ToLower(ctOf(hdr)), "application/") {
+		if _, bblock := readAllBlock(bres.rec); bblock != hx(content) {
+			oracle = fmt.Sprintf("VIOL roundtrip-content the built record's block has %d bytes, the builder was given %d", len(unhxOrEmpty(bblock)), len(content))
+		}
+	}
 	unknownType := bres.rec.Type() == 0
 	if applicable && !(unknownType && po.unk == 2) {
 		okAll := uerr == "-" && len(ufnd) == 0 && eq && re && rest == len(tail) && off == 0
@@ -371,6 +405,15 @@ func kRoundtrip(args []string) (string, string) {
 	}
 	_ = io.EOF
 	return line, oracle
+}
+
+func ctOf(hdr [][2]string) string {
+	for _, nv := range hdr {
+		if strings.EqualFold(nv[0], "Content-Type") {
+			return nv[1]
+		}
+	}
+	return ""
 }
 
 func init() {
@@ -505,8 +548,17 @@ func genC01(r *rng, n int, tier string, emit func(string, ...string)) {
 		po.adddig = false // compare the header the builder produced with the header parsed (DESIGN 5.0)
 		tail := pick(sub, []string{"", "", "WARC/1.1\r\n", "\r\n", "x"})
 		stat("rt-class", c.class)
-		emit("roundtrip", bo.String(), po.String(), c.ver, strconv.Itoa(c.rt0), pairsArg(c.hdr), hx(c.content), hxs(tail), oraclesForBuild(c), hxs(fixedId),
-			pick(sub, []string{"w", "w", "ws", "rf-whole", "rf-one", "rf-half", "rf-eofwith", "mix", "mix2", "exact"}))
+		how := pick(sub, []string{"w", "w", "ws", "rf-whole", "rf-one", "rf-half", "rf-eofwith", "mix", "mix2", "exact", "w2"})
+		if i%100 == 5 {
+			c = bcase{ver: "1.1", rt0: 4, class: "plain", hdr: [][2]string{{"WARC-Date", "2020-01-02T03:04:05Z"}, {"WARC-Target-URI", "http://example.com/"}, {"Content-Type", "text/plain"}}}
+			// a block larger than twice the initial memory buffer (16 KiB size hint), memory limit left at its default: fed with a
+			// short write and one large one
+			c.content = sub.bytes(pick(sub, []int{32768 - 47 + 1, 33000, 70000, 102400}))
+			bo.maxMem = 0
+			how = "w2"
+			stat("rt-class", "large-second-write")
+		}
+		emit("roundtrip", bo.String(), po.String(), c.ver, strconv.Itoa(c.rt0), pairsArg(c.hdr), hx(c.content), hxs(tail), oraclesForBuild(c), hxs(fixedId), how)
 	}
 }
 
